@@ -26,3 +26,12 @@ func TestProbe(t *testing.T) {
 		}
 	}
 }
+
+func TestSpeed(t *testing.T) {
+	if os.Getenv("C06_SPEED") == "" {
+		t.Skip()
+	}
+	for i := 0; i < 20000; i++ {
+		exec("caught := null\ntry {\n    1 + \"a\"\n} except e {\n    caught := e.type\n}\n", 0, false)
+	}
+}
